@@ -560,7 +560,21 @@ var macNames = []string{".notdef", ".null", "nonmarkingreturn", "space", "exclam
 func glyphNames(r *rand.Rand, n int) []string {
 	names := make([]string, n)
 	used := map[string]bool{}
+	// the glyph order of the legacy core fonts: the standard Macintosh names
+	// in their standard order, further names behind them (the post table can
+	// say "the 258 standard names" in one word - for exactly 258 glyphs)
+	std := 0
+	if n >= 250 && r.IntN(3) == 0 || r.IntN(12) == 0 {
+		std = min(n, 258)
+		for i := 0; i < std; i++ {
+			names[i] = MacNames[i]
+			used[names[i]] = true
+		}
+	}
 	for i := range names {
+		if i < std {
+			continue
+		}
 		var s string
 		for {
 			switch {
@@ -809,10 +823,19 @@ func CFFGlyph(r *rand.Rand, name string, width float64, intOnly bool) *cff.Glyph
 	if r.IntN(8) == 0 {
 		// several stems in both directions, replaced and activated by hint
 		// and counter masks at the start and inside the path
+		// now and then around the number of stems that fills the operand
+		// stack of one stem operator (24 pairs, 23 next to a width), and up
+		// to the 96 stems the format allows for one glyph
+		many := r.IntN(5) == 0
 		stems := func() []float64 {
 			var out []float64
 			a := float64(r.IntN(100) - 50)
-			for k := r.IntN(7); k > 0; k-- {
+			cnt := r.IntN(7)
+			if many {
+				cnt = []int{22, 23, 24, 25, 47, 48}[r.IntN(6)]
+				many = false // the other direction stays small
+			}
+			for k := cnt; k > 0; k-- {
 				w := float64(10 + r.IntN(80))
 				out = append(out, a, a+w)
 				a += w + float64(5+r.IntN(60))
